@@ -328,6 +328,7 @@ func TestVerifC06(t *testing.T) {
 			}})
 		}
 	}
+	scs = append(scs, c06senderScenarios(routes, packets)...)
 	if hx.Main("C06", scs) == 2 {
 		t.Fatal("internal error")
 	}
